@@ -305,6 +305,11 @@ fn c15_site(t: &[&str]) -> Option<String> {
     }
     for (kk, (p, q)) in pos.iter().zip(pos2.iter()).enumerate() {
         let (p, q) = (mat_of(p), mat_of(q));
+        // the lattice-shifted description is wrapped into the same canonical cell
+        let (qx, qy) = (q[(0, 2)], q[(1, 2)]);
+        if !(qx >= -0.5 && qx < 0.5 && qy >= -0.5 && qy < 0.5) {
+            return Some(format!("ok FAILS outside-cell shifted copy {} at ({},{}) for site ({},{})", kk, qx, qy, x + sn as f64, y + sm as f64));
+        }
         // positions equal modulo the lattice (a coordinate within rounding of ±1/2 may wrap to the other face)
         if frac_dist(p[(0, 2)] - q[(0, 2)]) > 1e-9 || frac_dist(p[(1, 2)] - q[(1, 2)]) > 1e-9 {
             return Some(format!("ok FAILS shifted-position copy {}", kk));
@@ -334,6 +339,9 @@ fn crystal_handles(st: &crate::state::AnyState) -> Vec<(usize, f64, f64)> {
             })
             .collect()
     }
+    // observe on a deep copy: writing through the handles must not disturb the state that is run
+    // (restoring a value that lies outside a handle's range would clamp it)
+    let st = &st.clone();
     let (bounds, nparams) = match st {
         crate::state::AnyState::HardLine(s) => (obs(&mut s.generate_basis()), crate::state::params_of(s).map(|p| p.len()).unwrap_or(0)),
         crate::state::AnyState::HardMol(s) => (obs(&mut s.generate_basis()), crate::state::params_of(s).map(|p| p.len()).unwrap_or(0)),
